@@ -109,7 +109,9 @@ class RecorderRoles(object):
             and n.value.value is None for n in walk_own(m.node) if isinstance(n, ast.Assign) and len(n.targets) == 1)]
         called = {n.func.attr for n in ast.walk(self.discard.node) if isinstance(n, ast.Call) and
                   isinstance(n.func, ast.Attribute) and _self_attr(n.func) is not None}
-        resets = [m for m in resets if m.name in called or m is self.discard]
+        called |= {n.func.attr for n in ast.walk(self.start.node) if isinstance(n, ast.Call) and
+                   isinstance(n.func, ast.Attribute) and _self_attr(n.func) is not None}
+        resets = [m for m in resets if m.name in called and m is not self.discard] or [m for m in resets if m is self.discard]
         self.reset = self._onef('reset-routine', resets)
         # ---- decorator factories and closures
         self.closures = {}      # 'operation' | 'input' | 'output' -> (factory FuncInfo, decorator FuncInfo, closure FuncInfo)
@@ -152,9 +154,8 @@ class RecorderRoles(object):
                     c.lookup(cm.func.attr).is_contextmanager:
                 self.interception_cm = c.lookup(cm.func.attr)
         # ---- replay reader: method reading the playback field and raising / returning envelope entries
-        readers = [m for m in c.methods.values() if m is not self.play and not m.is_property and any(
-            isinstance(n, ast.Raise) and isinstance(n.exc, ast.Subscript) for n in walk_own(m.node)) and any(
-            _self_attr(n) == self.playback for n in ast.walk(m.node))]
+        readers = [c.lookup(nm) for nm in sorted(common) if c.lookup(nm) is not None and c.lookup(nm) is not self.executor and
+                   not c.lookup(nm).is_property and any(_self_attr(n) == self.playback for n in ast.walk(c.lookup(nm).node))]
         self.reader = self._onef('replay-reader', readers)
         # ---- operation executor: method calling its first non-self parameter and recording the operation alias
         op_called = called_methods(self.closures['operation'][2])
